@@ -4,7 +4,7 @@
    (ii) the go/ast walker that regenerates the lock table is a syntactic over-approximation and is trusted,
    (iii) interleavings of the real code are sampled (a -race stress and recorded LRU histories on every run). *)
 From Coq Require Import List String ZArith NArith Bool.
-From WTF Require Import Model.Lru Model.Conc Model.Metrics Proofs.ConcProofs Proofs.MetricsProofs.
+From WTF Require Import Model.Lru Model.Metrics Proofs.MetricsProofs Model.Conc Proofs.ConcProofs.
 Import ListNotations.
 Close Scope string_scope.
 
